@@ -700,6 +700,8 @@ class Gen:
                "contract_only": contract_only, "clauses": [], "notes": fd.notes,
                "src_fn": fd.qual, "module": self.cur_module}
         for a in fd.opts.get("attrs", []):
+            if getattr(fd, "_is_twin", False) and "rlimit" in a:
+                continue  # the vacuity twin keeps the small default budget
             self.emit(a)
         if contract_only:
             self.emit("#[verifier::external_body]")
